@@ -2064,6 +2064,14 @@ impl<'a> Gen<'a> {
         FbDef { name, params, vars, body }
     }
 
+    fn index_vars(&self) -> Vec<String> {
+        let strict = self.profile == Profile::Strict;
+        self.int_vars(&KINDS)
+            .into_iter()
+            .filter(|n| !strict || self.kind_of(n) != Some(Ty::Int(IKind::ULInt)))
+            .collect()
+    }
+
     /// stage S3: an index expression for array `a` with bounds lo..hi.
     fn gen_index(&mut self, lo: i64, hi: i64) -> Expr {
         if self.sab("index-bool") {
@@ -2078,8 +2086,9 @@ impl<'a> Gen<'a> {
                 lit(n)
             }
             5..=7 => {
-                // an integer variable of any kind (value may be out of bounds: IndexOutOfBounds)
-                let vars = self.int_vars(&KINDS);
+                // an integer variable of any kind (value may be out of bounds: IndexOutOfBounds);
+                // the guarded fragment excludes ULINT subscripts (`index_to_i64` casts with `as i64`)
+                let vars = self.index_vars();
                 if vars.is_empty() {
                     lit(lo as i128)
                 } else {
@@ -2087,7 +2096,7 @@ impl<'a> Gen<'a> {
                 }
             }
             _ => {
-                let vars = self.int_vars(&KINDS);
+                let vars = self.index_vars();
                 if vars.is_empty() {
                     lit(lo as i128)
                 } else {
@@ -2304,8 +2313,8 @@ impl<'a> Gen<'a> {
                 }
             }
         }
-        if args.is_empty() && !self.rng.chance(1, 10) {
-            // `inst();` is the recorded finding C01-call-empty-args: keep it rare
+        if args.is_empty() && !self.rng.chance(1, 3) {
+            // `inst();` (every input omitted) is a formal call since d406d2d; keep a third of them
             let p = fb.params.iter().find(|p| p.dir == Dir::In)?.clone();
             let e = self.arg_value(p.ty);
             args.push(Arg { name: Some(p.name), arrow: false, e });
@@ -2850,6 +2859,20 @@ pub fn witnesses() -> Vec<(&'static str, Program)> {
                         None,
                         vec![asg("n", bin(BinOp::Add, v("n"), lit(1)))],
                     ),
+                ],
+            },
+        ),
+        (
+            // `u` = 2^64 - 2 is cast to the index -2, which lies inside the bounds -2..2
+            "index-ulint-cast",
+            Program {
+                funcs: Vec::new(), fbs: Vec::new(), insts: Vec::new(),
+                aggs: vec![("ar".to_string(), AggDecl::Arr(-2, 2, int(DInt)))],
+                decls: vec![decl("u", int(ULInt), i64::MAX as i128), decl("x", int(DInt), 0)],
+                body: vec![
+                    asg("u", bin(BinOp::Mul, v("u"), tl(ULInt, 2))),
+                    Stmt::AssignIdx("ar".into(), v("u"), tl(DInt, 7)),
+                    asg("x", Expr::Idx("ar".into(), Box::new(v("u")))),
                 ],
             },
         ),
